@@ -4,9 +4,9 @@ CONSTANTS
   CyclesFromEveryNode = TRUE
   RefDepthChecked = TRUE
   ExitLinked = TRUE
-  StopAfterAnswer = FALSE
-  ResumeAllEdges = FALSE
+  StopAfterAnswer = TRUE
+  ResumeAllEdges = TRUE
   StepCap = 600
-INIT GInit
-NEXT GNext
+SPECIFICATION Spec
 CHECK_DEADLOCK FALSE
+INVARIANT FollowsGraph
